@@ -224,8 +224,8 @@ def run_tissue(ck, case, reqs, pending):
         gc.collect()
         still = [cid for cid, c_ in bm.cells.items() if any(victim in v.ownCells for v in c_.vertices)]
         if still:
-            ck.count("removed_cell_still_referenced")        # some other object keeps it alive: nothing to check
-        else:
+            ck.count("removed_cell_still_listed_by_vertices")        # this harness holds no other reference to the cell: the package does
+        if True:
             want2 = {}
             for cid, c_ in bm.cells.items():
                 vs = set(v.id for v in c_.vertices)
